@@ -181,3 +181,48 @@ Proof.
   rewrite <- (filter_concat_runs (k :: ks) gs g ND Hg (runs_nonempty _ _) (runs_same_id _ _)) at 1.
   unfold gs. rewrite runs_concat. apply Permutation_filter'. apply Permutation_sym. exact P.
 Qed.
+
+(* ---- the aggregates of a group do not depend on the order of its rows: the run Reduce folds (a permutation of the
+   input rows with that id, d11_runs_are_groups) yields the aggregates of the group itself ------------------------- *)
+Lemma zsum_perm : forall a b, Permutation a b -> zsum a = zsum b.
+Proof.
+  intros a b P. unfold zsum. induction P; cbn [fold_right]; lia.
+Qed.
+
+Lemma distinct_count_perm : forall l l', Permutation l l' -> distinct_count [] l = distinct_count [] l'.
+Proof.
+  intros l l' P.
+  destruct (distinct_final_spec l [] (NoDup_nil _)) as [N I].
+  rewrite (distinct_count_is_set_size l (distinct_final [] l) N).
+  - symmetry. apply (distinct_count_is_set_size l' (distinct_final [] l) N).
+    intro x. rewrite I. cbn. split; [intros [[]|H]; eapply Permutation_in; eauto | intro H; right;
+      eapply Permutation_in; [apply Permutation_sym; exact P | exact H]].
+  - intro x. rewrite I. cbn. tauto.
+Qed.
+
+Lemma int_cell_inj : forall x y, int_cell x = int_cell y -> x = y.
+Proof. intros x y H. unfold int_cell, int_lit in H. injection H as H _ _. exact H. Qed.
+
+Theorem aggregates_order_independent : forall a g g' c c',
+  Permutation g g' ->
+  match g with r :: _ => rget r (a_in a) = Some c | [] => True end ->
+  match g' with r :: _ => rget r (a_in a) = Some c' | [] => True end ->
+  (a_acc a = AccCount -> reduce_column a g = reduce_column a g') /\
+  (a_acc a = AccCountDistinct -> reduce_column a g = reduce_column a g') /\
+  (a_acc a = AccSumInt -> forall vs, map (fun r => rget r (a_in a)) g = map int_cell vs ->
+     reduce_column a g = reduce_column a g').
+Proof.
+  intros a g g' c c' P Hc Hc'.
+  destruct g as [|r g0]; destruct g' as [|r' g0'].
+  - repeat split; intros; reflexivity.
+  - apply Permutation_nil in P. discriminate.
+  - apply Permutation_sym, Permutation_nil in P. discriminate.
+  - repeat split.
+    + intro K. unfold reduce_column. rewrite Hc, Hc', K. rewrite (Permutation_length P). reflexivity.
+    + intro K. unfold reduce_column. rewrite Hc, Hc', K. do 4 f_equal.
+      rewrite !map_map. apply distinct_count_perm. apply Permutation_map. exact P.
+    + intros K vs E. unfold reduce_column. rewrite Hc, Hc', K.
+      pose proof (Permutation_map (fun r => rget r (a_in a)) P) as PM. rewrite E in PM.
+      destruct (Permutation_map_inv _ _ (Permutation_sym PM)) as (vs' & E' & P').
+      rewrite E, E', !sum_int_wraps. cbn [bind]. rewrite (zsum_perm vs vs' P'). reflexivity.
+Qed.
